@@ -6,7 +6,8 @@ from . import c06
 REQUIRED = ['Petl.C07.' + n for n in (
     'lookup_spec lookupone_spec strict_raises_iff_dup hashjoin_eq_nested_loop hashleftjoin_eq_nested_loop '
     'hashantijoin_eq_filter hashlookupjoin_eq_first hashjoin_perm_join hashleftjoin_perm_leftjoin '
-    'hashantijoin_perm_antijoin').split()]
+    'hashantijoin_perm_antijoin hashrightjoin_eq_nested_loop hashrightjoin_perm_rightjoin find_first_partner_sorted '
+    'hashlookupjoin_perm_lookupjoin').split()]
 
 KINDS = ['inner', 'left', 'right', 'anti', 'lookup']
 HFN = {'inner': 'hashjoin', 'left': 'hashleftjoin', 'right': 'hashrightjoin', 'anti': 'hashantijoin', 'lookup': 'hashlookupjoin'}
